@@ -378,9 +378,13 @@ func tablesRun(c *harness.C, variant string, r *explore.Recorder) *kgOut {
 			p.HandleMessage(&tss.IncMessage{Data: p2p, Source: src2, MsgType: 2, Topic: topic})
 		})
 		sc.Go("D3", func() {
+			// a message on a topic that no session of this node knows (early, late or stray traffic)
+			p.HandleMessage(&tss.IncMessage{Data: p2p, Source: src3, MsgType: 2, Topic: world.Sha([]byte("no such session"))})
 			p.HandleMessage(&tss.IncMessage{Data: p2p, Source: src3, MsgType: 2, Topic: topic})
 			p.HandleMessage(&tss.IncMessage{Data: ack, Source: src3, MsgType: 2, Topic: topic})
 			p.HandleMessage(&tss.IncMessage{Data: payload, Source: src3, MsgType: 2, Topic: topic})
+			p.HandleMessage(&tss.IncMessage{Data: ack, Source: src3, MsgType: 2, Topic: world.Sha([]byte("no such session"))})
+			p.HandleMessage(&tss.IncMessage{Data: []byte{1}, Source: src3, MsgType: 1, Topic: world.Sha([]byte("no such session"))})
 		})
 		sc.Run(r)
 		o.deadlock = sc.Deadlock
